@@ -379,7 +379,7 @@ package encoding
 //@   ensures[err] ret1 != nil ==> ret0 == nil
 //@   modifies nothing
 
-//@ bounded[C15,C09] reflect-cbor : 28 values over 6 struct shapes (flat / one / two levels of embedding / embedded interface holding a struct or a pointer / embedded named scalar and slice types with their own tags), every subset of 3 optional fields, synthetic structs of 0,1,23,24,25,255,256,257 fields; thorough tier: synthetic structs of every field count 0..300 and 65535, 65536, 65537 :: boundedReflectCBOR()
-//@ bounded[C15,C09,C12] reflect-json : the same 28 values over 6 struct shapes, JSON side :: boundedReflectJSON()
+//@ bounded[C15,C09] reflect-cbor : 29 values over 7 struct shapes (flat / one / two levels of embedding / embedded interface holding a struct or a pointer / embedded named scalar and slice types with their own tags / an outer field re-declaring an optional key of the embedded struct), every subset of 3 optional fields, synthetic structs of 0,1,23,24,25,255,256,257 fields; thorough tier: synthetic structs of every field count 0..300 and 65535, 65536, 65537 :: boundedReflectCBOR()
+//@ bounded[C15,C09,C12] reflect-json : the same 29 values over 7 struct shapes, JSON side :: boundedReflectJSON()
 //@ bounded[C15] strict-omitempty : one flat struct whose omitempty byte slice, string slice and map are empty but not nil, both serialisations, against the plain marshallers; one struct whose embedded interface holds a struct by value, serialised and populated back; one flat struct holding by value a field whose JSON marshaller has a pointer receiver (math/big.Int), against the plain marshaller :: boundedStrictOmitempty()
 //@ bounded[C05] populate-no-panic : every truncation of 31 CBOR and 31 JSON seed documents, every value of each of the first 6 bytes of each CBOR seed; thorough tier: every value of every byte of each CBOR seed :: boundedPopulateNoPanic()
